@@ -557,6 +557,11 @@ func checkC03(c *Ctx) {
 	r.Rule("C03.11", "the prefix transport identifies a peer only by the tag revealed from this connection's bytes", 1)
 	checkPrefixLookupKey(c, "C03.11")
 	checkAcceptToHandler(c, h)
+	// ---- C03.14 the handler's first step asks the manager's GeoIP database (an interface, no nil test): it must never
+	// be replaced by the nil result of a failed open, or the next probe takes the station - and every pending
+	// connection - down
+	r.Rule("C03.14", "the registration manager's GeoIP database is replaced only by a database that opened", 2)
+	checkGeoIPReplaced(c, "C03.14")
 	r.Rule("C03.8", "the GeoIP wrappers report an error only when the database reader returned one", 2)
 	for _, m := range []string{"ASN", "CC"} {
 		f := c.fn("C03.8", "pkg/station/geoip", "maxMindDatabase", m)
